@@ -81,6 +81,7 @@ type Task struct {
 	OpSeq    int    // index of the current operation within the task
 	LastSite uint32 // site of the last Yield (where a pre-emption landed)
 	visits   uint32 // map-range visits inside the current operation
+	locks    []any  // cooperative locks held (and Once objects passed), for the race detector
 	Done     bool
 }
 
@@ -222,6 +223,7 @@ func ResetRun() {
 	PoolChoice = func(n int) int { return n - 1 }
 	SyncHook = nil
 	DrainPools()
+	resetRaces()
 }
 
 // Configure installs the map-order fault for this process. nSites is the
